@@ -757,7 +757,7 @@ class DiffARBF(DiffRBF):
             derivs = np.zeros((X.shape[0], Y.shape[0], deriv_size))
         for i in range(self.order):
             sk.append(np.sum(k0 ** (i + 1), axis=-1))
-        en = [1]
+        en = [np.ones((X.shape[0], Y.shape[0]))]
         for n in range(self.order):
             en.append(sk[n] * (-1) ** n)
             for k in range(n):
@@ -810,7 +810,7 @@ class DiffARBF(DiffRBF):
         sk = []
         for i in range(self.order):
             sk.append(np.sum(k0 ** (i + 1), axis=-1))
-        en = [1]
+        en = [np.ones((X.shape[0], Y.shape[0]))]
         for n in range(self.order):
             en.append(sk[n] * (-1) ** n)
             for k in range(n):
@@ -941,7 +941,7 @@ class DiffAdditiveMixin(DiffKernelMixin):
         sk = []
         for i in range(self.order):
             sk.append(np.sum(k0 ** (i + 1), axis=-1))
-        en = [1]
+        en = [np.ones((X.shape[0], Y.shape[0]))]
         for n in range(self.order):
             en.append(sk[n] * (-1) ** n)
             for k in range(n):
@@ -993,7 +993,7 @@ class DiffAdditiveMixin(DiffKernelMixin):
         sk = []
         for i in range(self.order):
             sk.append(np.sum(k0 ** (i + 1), axis=-1))
-        en = [1]
+        en = [np.ones((X.shape[0], Y.shape[0]))]
         for n in range(self.order):
             en.append(sk[n] * (-1) ** n)
             for k in range(n):
